@@ -9,7 +9,9 @@ Definition otexts_eqb (a b : option (list text)) : bool := match a, b with Some 
 (* observations: first board (legacy, ebb3), listed devices (legacy, ebb3; None = the function returned None), listed names (legacy, ebb3),
    lookups: (name, legacy result, ebb3 result) *)
 Inductive case19 := K19 (ports : list portinfo) (first_l first_3 : option text) (list_l list_3 : option (list text))
-                        (names_l names_3 : option (list text)) (lookups : list (option text * option text * option text)).
+                        (names_l names_3 : option (list text)) (lookups : list (option text * option text * option text))
+                        (* connect(name) on an EBB3 object that discovered some other board earlier: (name, port it tried to open) *)
+                        (objlk : list (option text * option text)).
 
 (* the property, written directly *)
 Definition first_spec (ports : list portinfo) : option text :=
@@ -22,15 +24,18 @@ Definition list_spec (ports : list portinfo) : option (list text) :=
 
 Definition check19 (c : case19) : Z :=
   match c with
-  | K19 ports fl f3 ll l3 nl n3 lookups =>
+  | K19 ports fl f3 ll l3 nl n3 lookups objlk =>
+      (* what an object's connect(name) looks up does not depend on what the object found before *)
+      let obj_ok := forallb (fun q => let '(n, opened) := q in
+                               otext_eqb opened (match n with Some _ => find_named_l false ports n | None => findPort ports end)) objlk in
       let m_first := findPort ports in
       let m_list := match list_ebb_ports ports with Some l => Some (map dev l) | None => None end in
       let mis :=
         negb (otext_eqb m_first fl && otext_eqb m_first f3 && otexts_eqb m_list ll && otexts_eqb m_list l3 &&
               otexts_eqb (list_named_ebbs true ports) nl && otexts_eqb (list_named_ebbs false ports) n3 &&
-              forallb (fun q => let '(n, rl, r3) := q in otext_eqb (find_named_l true ports n) rl && otext_eqb (find_named_l false ports n) r3) lookups) in
+              forallb (fun q => let '(n, rl, r3) := q in otext_eqb (find_named_l true ports n) rl && otext_eqb (find_named_l false ports n) r3) lookups && obj_ok) in
       let spec :=
-        negb (otext_eqb (first_spec ports) fl && otext_eqb fl f3 && otexts_eqb (list_spec ports) ll && otexts_eqb ll l3 &&
+        negb (obj_ok && otext_eqb (first_spec ports) fl && otext_eqb fl f3 && otexts_eqb (list_spec ports) ll && otexts_eqb ll l3 &&
               (* a lookup never returns a port that is not in the list, and returns the first port that answers to the name *)
               forallb (fun q => let '(n, rl, r3) := q in
                          (match rl with Some d => existsb (fun p => text_eqb (dev p) d) ports | None => true end) &&
